@@ -457,3 +457,14 @@ package stdlib
 //@ func stdlib.parseRFC3339
 //@   tags C11 C14
 //@   loop 1 invariant (and (<= 2 n) (<= n (str.len $now.s)))
+//
+// sethaselement (C12): the function answers what Value.HasElement answers, so a known false for a value of the
+// set's element type is given only when the set and the value are wholly known - a member or a part that is
+// still unknown may turn out to match. (No no-panic claim: HasElement is under a may_panic contract.)
+//@ func stdlib.SetHasElementFunc.Impl
+//@   tags C12
+//@   spec_args stdlib.SetHasElementFunc
+//@   may_panic
+//@   let a0 (val_at args 0)
+//@   let a1 (val_at args 1)
+//@   ensures[C12] false_only_if_decided: (=> (and (= result.1 nil.Any) (not (is_marked a0)) (not (is_marked a1)) (is_set_ty (vty a0)) (ty_eq (vty a1) (elem_ty (vty a0))) (bool_payload result.0 false)) (and (wholly_known a0) (wholly_known a1)))
